@@ -18,10 +18,10 @@ func init() {
 		Explanation: "End-to-end equivalence with `go run` over all programs is behavioural and not decided. Three wiring clauses are: TAB-EXHAUST — every opcode the compiler or optimiser can emit has a handler in exec (unhandled = run-time 'unknown code' for every script reaching it), every placeholder opcode has a rewrite site, with one derived exemption (an opcode emitted only inside the FUNC header, which exec skips); TAB-BASICNAMES — the five places enumerating basic type names (getType, convMap, the conversion-call list, the alias list, the nudSelf rows) agree and convMap maps int/int32/rune->Int32, byte/uint8->Uint8, int8->Int8, uint/uint32->Uint32, float64, bool, string to the matching tag; TAB-SHIM — every bundled stdlib shim that delegates to the Go package named in its registration key calls exactly the function of that name, passes the script's arguments once each in parameter order, and registers the callee's parameter and result counts. Operator, control-flow, scoping and call clauses are decided under C04-C09.",
 		Assumptions: []string{"hand-written shims (fmt.Sprint*, slices.*, maps.*, os.* indirections) are listed as manual and not judged"},
 		Quick: []ruleDef{
-			{"TAB-EXHAUST", 60, ruleTabExhaust},
-			{"TAB-BASICNAMES", 30, ruleTabBasicNames},
-			{"TAB-SHIM", 40, ruleTabShim},
-			{"LAY-ONCE", 30, ruleLayOnce},
+			{"TAB-EXHAUST", 64, ruleTabExhaust},
+			{"TAB-BASICNAMES", 74, ruleTabBasicNames},
+			{"TAB-SHIM", 143, ruleTabShim},
+			{"LAY-ONCE", 52, ruleLayOnce},
 			{"TAB-KEYWORDS", 25, ruleTabKeywords},
 			{"TAB-IOTA", 3, ruleTabIota},
 		},
